@@ -278,6 +278,7 @@ def run(ctx):
         assumptions=[
             "Python int arithmetic = Z; list slicing arr[a:b] = firstn (b-a) (skipn a arr) for 0<=a",
             "translator tools/py2v_batch.py + tools/imp2v.py (fail-closed), validated by this run's correspondence",
+            "translator tools/py2v_runworker.py (run_worker's statement sequence; fail-closed), validated by the recorded task lists",
         ],
         exhaustive=True,
     )
